@@ -273,8 +273,8 @@ def scalar(ctx):
     rng = ctx.rng
     case = Case(rng)
     vals = rng.normal(size=tuple(case.n)) * 10.0 ** rng.uniform(-15, 9)
-    f = df.Field(case.mesh, nvdim=1, value=vals[..., None], valid=case.valid.copy(),
-                 unit=gen.pick(rng, [None, "A/m"]))
+    f = gen.via_history(None, df.Field(case.mesh, nvdim=1, value=vals[..., None], valid=case.valid.copy(),
+                 unit=gen.pick(rng, [None, "A/m"])))
     fkind, ff, fhid = case.filter(rng)
     info = {"plot": "scalar", "filter": fkind, **case.describe()}
     guard = Unchanged(ctx, f, [ff] if ff is not None else [], info)
@@ -331,8 +331,8 @@ def make_vector(rng, case, nvdim):
         iother = int(perm[2])
         mapping[labels[iother]] = gen.pick(rng, [None, "w_out"])
     mapping = gen.shuffle_keys(rng, {lab: mapping[lab] for lab in labels})
-    f = df.Field(case.mesh, nvdim=nvdim, value=arr, valid=case.valid.copy(), vdims=vdims,
-                 vdim_mapping=mapping)
+    f = gen.via_history(None, df.Field(case.mesh, nvdim=nvdim, value=arr, valid=case.valid.copy(), vdims=vdims,
+                 vdim_mapping=mapping))
     mclass = "identity" if (ix, iy) == (0, 1) else "permuted"
     return f, arr, labels, ix, iy, iother, mclass
 
@@ -431,7 +431,7 @@ def contour(ctx):
             + 0.3 * rng.normal(size=tuple(case.n))) * 10.0 ** rng.uniform(-15, 9)
     if not case.valid.any():
         case.valid[0, 0] = True
-    f = df.Field(case.mesh, nvdim=1, value=vals[..., None], valid=case.valid.copy())
+    f = gen.via_history(None, df.Field(case.mesh, nvdim=1, value=vals[..., None], valid=case.valid.copy()))
     fkind, ff, fhid = case.filter(rng)
     info = {"plot": "contour", "filter": fkind, **case.describe()}
     guard = Unchanged(ctx, f, [ff] if ff is not None else [], info)
@@ -482,7 +482,7 @@ def lightness(ctx):
     info = {"plot": "lightness", "nvdim": nvdim, **case.describe()}
     if nvdim == 1:
         arr = rng.uniform(0.05, 2 * np.pi - 0.05, size=(*n, 1))
-        f = df.Field(case.mesh, nvdim=1, value=arr, valid=case.valid.copy())
+        f = gen.via_history(None, df.Field(case.mesh, nvdim=1, value=arr, valid=case.valid.copy()))
         angle = arr[..., 0]
         light = np.abs(arr[..., 0])
         mclass = None
@@ -578,7 +578,7 @@ def combined(ctx):
     info = {"plot": "mpl()", "nvdim": nvdim, **case.describe()}
     if nvdim == 1:
         vals = rng.normal(size=tuple(case.n))
-        f = df.Field(case.mesh, nvdim=1, value=vals[..., None], valid=case.valid.copy())
+        f = gen.via_history(None, df.Field(case.mesh, nvdim=1, value=vals[..., None], valid=case.valid.copy()))
         mclass = None
     else:
         f, arr, labels, ix, iy, iother, mclass = make_vector(rng, case, nvdim)
